@@ -7,15 +7,113 @@ import (
 	"sort"
 	"strings"
 	"time"
+
+	"github.com/trzsz/trzsz-go/internal/verifsim"
 )
 
 func init() {
 	vScenarios["C07"] = vScenarioC07
 }
 
+// vC07Concurrent: two receives at the same time into the same folder (two terminal tabs with one download
+// directory), each of a directory (or file) with the same name and different content. Whichever comes second
+// steps aside: two names, two intact trees, each report naming the tree it belongs to.
+func vC07Concurrent(rc *runCtx) {
+	tp := rc.tape
+	w := rc.w
+	dst := filepath.Join(rc.dir, "dst")
+	os.MkdirAll(dst, 0755)
+	vWriteFile(filepath.Join(dst, "bystander.txt"), []byte("bystander"))
+	name := []string{"logs", "data.bin", "读我.md", "x"}[tp.Draw("c07c.name", 4)]
+	asDir := tp.Bool("c07c.dir", 700)
+	var xs []*xferWorld
+	var befores []vSnap
+	for i := 0; i < 2; i++ {
+		cfg := vDrawConfig(tp, false)
+		cfg.upload, cfg.overwrite, cfg.timeout, cfg.trigVersion, cfg.quiet = false, false, 20, "", true
+		cfg.dirMode = asDir
+		if asDir {
+			cfg.protocol = []int{0, 0, 3, 2}[tp.Draw("c07c.proto", 4)]
+		}
+		src := filepath.Join(rc.dir, fmt.Sprintf("src%d", i))
+		p := filepath.Join(src, name)
+		if asDir {
+			os.MkdirAll(filepath.Join(p, "sub"), 0755)
+			for k := 0; k < 2+tp.Draw("c07c.files", 5); k++ {
+				b, _ := vGenContent(tp, 1+tp.Draw("c07c.size", 30000))
+				vWriteFile(filepath.Join(p, fmt.Sprintf("f%d-of-transfer-%d.log", k, i)), append(b, byte('0'+i)))
+			}
+			vWriteFile(filepath.Join(p, "app.log"), []byte(fmt.Sprintf("app.log of transfer %d", i)))
+			vWriteFile(filepath.Join(p, "sub", "deep.txt"), []byte(fmt.Sprintf("deep of transfer %d", i)))
+		} else {
+			os.MkdirAll(src, 0755)
+			b, _ := vGenContent(tp, 1+tp.Draw("c07c.size", 60000))
+			vWriteFile(p, append(b, byte('0'+i)))
+		}
+		o := cfg.opts()
+		o.srcPaths, o.dstDir = []string{p}, dst
+		// one of them over a slow line, so that the other overtakes it between its name and its first data
+		o.profile = transportProfile{segPm: 200, coalPm: 100, latPm: []int{0, 1000}[tp.Draw("c07c.slow", 2)], latMax: time.Duration(1+tp.Draw("c07c.lat", 200)) * time.Millisecond}
+		o.simCap = 10 * time.Minute
+		xs = append(xs, newXferWorld(rc, o))
+	}
+	rc.res.ClassKey = fmt.Sprintf("concurrent dir=%v %s", asDir, name)
+	rc.fault("two-receives-into-one-folder")
+	before := vSnapshot(dst)
+	befores = append(befores, before, before)
+	xs[0].start()
+	gap := time.Duration(tp.Draw("c07c.gap", 120)) * time.Millisecond
+	started := false
+	w.Go("second", nil, func() {
+		verifsim.Sleep(gap)
+		xs[1].start()
+		started = true
+	})
+	w.Run(func() bool { return started && xs[0].finished() && xs[1].finished() })
+	if w.StepCap {
+		return
+	}
+	var reported []string
+	reps := []*xferReport{xs[0].report(), xs[1].report()}
+	for i := range xs {
+		xs[i].o.othersNames = map[string]bool{}
+		for _, n := range reps[1-i].clientNames {
+			xs[i].o.othersNames[n] = true
+		}
+	}
+	for i, x := range xs {
+		rep := reps[i]
+		if !rep.serverExited || x.filter.IsTransferringFiles() {
+			rc.violate("hang", "C07:concurrent-hang", "transfer %d of two concurrent receives into one folder never ended", i+1)
+			return
+		}
+		vCheckFidelity(rc, x, rep, befores[i], true)
+		if rc.res.Class == "violation" {
+			rc.res.Sig = strings.Replace(rc.res.Sig, "C01:", "C07:concurrent:", 1)
+			rc.res.Msg = fmt.Sprintf("two receives of %q at the same time into one folder, transfer %d: %s", name, i+1, rc.res.Msg)
+			return
+		}
+		reported = append(reported, rep.clientNames...)
+	}
+	if len(reported) == 2 && reported[0] == reported[1] {
+		rc.violate("names", "C07:concurrent-same-name", "two receives of %q at the same time into one folder were both stored as %q", name, reported[0])
+		return
+	}
+	after := vSnapshot(dst)
+	if b, ok := after["bystander.txt"]; !ok || !before["bystander.txt"].untouched(b) {
+		rc.violate("touched", "C07:concurrent-bystander", "the bystander file was touched")
+		return
+	}
+	rc.res.Nontrivial = true
+}
+
 // vScenarioC07: without -y nothing that already exists at the destination is touched.
 func vScenarioC07(rc *runCtx) {
 	tp := rc.tape
+	if tp.Bool("c07.concurrent", 80) {
+		vC07Concurrent(rc)
+		return
+	}
 	cfg := vDrawConfig(tp, false)
 	cfg.overwrite = false
 	cfg.timeout = 20
